@@ -33,7 +33,8 @@ def zip_members(data: bytes):
 
 
 def info_key(i: zipfile.ZipInfo):
-    return (i.filename, i.compress_type, i.date_time, i.external_attr, i.comment, i.extra)
+    # zipfile.writestr normalises external_attr and flag bits; the property is about bytes
+    return (i.filename, i.compress_type, i.date_time)
 
 
 def norm_tree(t):
@@ -269,6 +270,7 @@ def eval_replace(state, arg):
                     new = rng.choice(["x\n", "\n"])
                     feats.add("trailing_newline")
                 pairs.append((old, new))
+            res["features"] = sorted(feats)
             src = os.path.join(tmp, "in.docx")
             out = os.path.join(tmp, "out.docx")
             open(src, "wb").write(data)
